@@ -777,11 +777,20 @@ def chain_fn(chain, x, T0=('i', 64, True)):
     return v
 
 
-def chain_signature(chain, T0=('i', 64, True)):
-    return tuple(chain_fn(chain, x, T0) for x in WITNESS)
+I64 = ('i', 64, True)
 
 
-def oracle_signature(bits, signed, boolean=False, T0=('i', 64, True)):
+def chain_signature(chain, T0=I64):
+    """the 64-bit results (as int64_t, the folder's return type) of the chain on the witness values"""
+    out = []
+    for x in WITNESS:
+        v = chain_fn(chain, x, T0)
+        out.append(None if v is None else wrap(v, I64))
+    return tuple(out)
+
+
+def oracle_signature(bits, signed, boolean=False, T0=I64):
+    """conversion of the witness values to the integer type (bits, signed), read back as int64_t"""
     if boolean:
         return tuple(1 if wrap(x, T0) else 0 for x in WITNESS)
-    return tuple(wrap(wrap(x, T0), ('i', bits, signed)) for x in WITNESS)
+    return tuple(wrap(wrap(wrap(x, T0), ('i', bits, signed)), I64) for x in WITNESS)
